@@ -23,7 +23,7 @@ RSUF = {2: 'rect', 3: 'rect3'}
 def build_roots():
     roots = []; meta = {}
 
-    def add(name, code, max_paths=160, opaque=(), **m):
+    def add(name, code, max_paths=900, opaque=(), **m):
         roots.append(Root(name, code, max_paths=max_paths, opaque=opaque)); meta[name] = m
 
     for d in (2, 3):
